@@ -78,3 +78,56 @@ SXOPN(linsolve_, "linsolve")
     }
     return Val::V(linsolve(eqs, syms));
 }
+
+// ------------------------------------------------------------------ lambda double evaluators (C13)
+#include <symengine/lambda_double.h>
+#include <complex>
+// (lambda_seq real|complex step...) with step = (init (sym...) (expr...) cse) | (call x...)   [complex call: re im re im ...]
+// One evaluator object lives through the whole sequence; returns the outputs of every call.
+SXOP(lambda_seq)
+{
+    std::string mode = c.S(e, 1);
+    LambdaRealDoubleVisitor rv;
+    LambdaComplexDoubleVisitor cv;
+    size_t nout = 0, nin = 0;
+    bool inited = false;
+    std::string out = "{\"calls\":[";
+    bool first = true;
+    for (size_t i = 2; i < e.n(); i++) {
+        const Sx &st = e.l[i];
+        if (st.atom or st.l.empty() or not st.l[0].atom) throw HarnessError{"lambda_seq: bad step"};
+        const std::string &what = st.l[0].a;
+        if (what == "init") {
+            vec_basic ins = c.VEC(st, 1), outs = c.VEC(st, 2);
+            bool cse = st.l.size() > 3 and c.T(st, 3);
+            if (mode == "real") rv.init(ins, outs, cse);
+            else cv.init(ins, outs, cse);
+            nin = ins.size();
+            nout = outs.size();
+            inited = true;
+        } else if (what == "call") {
+            if (not inited) throw HarnessError{"lambda_seq: call before init"};
+            if (not first) out += ",";
+            first = false;
+            out += "[";
+            if (mode == "real") {
+                std::vector<double> in(nin), res(nout);
+                if (st.l.size() - 1 != nin) throw HarnessError{"lambda_seq: wrong number of inputs"};
+                for (size_t k = 0; k < nin; k++) in[k] = c.D(st, k + 1);
+                rv.call(res.data(), in.data());
+                for (size_t k = 0; k < nout; k++) out += (k ? ",\"" : "\"") + hexdouble(res[k]) + "\"";
+            } else {
+                std::vector<std::complex<double>> in(nin), res(nout);
+                if (st.l.size() - 1 != 2 * nin) throw HarnessError{"lambda_seq: wrong number of inputs"};
+                for (size_t k = 0; k < nin; k++) in[k] = std::complex<double>(c.D(st, 2 * k + 1), c.D(st, 2 * k + 2));
+                cv.call(res.data(), in.data());
+                for (size_t k = 0; k < nout; k++)
+                    out += (k ? ",[\"" : "[\"") + hexdouble(res[k].real()) + "\",\"" + hexdouble(res[k].imag()) + "\"]";
+            }
+            out += "]";
+        } else {
+            throw HarnessError{"lambda_seq: unknown step"};
+        }
+    }
+    return Val::J(out + "]}");
+}
